@@ -94,6 +94,11 @@ def run(ctx):
     ofail += [(l, i, "the harness got no exported circuit: " + str(why)) for l, i, why in eres["crash"][:1]]
     dres = do.run_dopt(ctx, 3000 if ctx.quick else 60000, seed=s + 40)
     cres = dc.run_detailed(ctx, 1200 if ctx.quick else 30000, seed=s + 20, prop="C02")
+    # the CLOSED reordering pass (coq/Reorder.v; theorems c02_reordering_write_back_accepted, c02_closed_reordering_*): Reorder.run against
+    # runReorderingOnCells, exported circuit and both model values exact; a THROW of the C++ on a window of distinct placed cells is a violation
+    from checks import c05_reorder as cr
+    rres = cr.run_reorder(ctx, 600 if ctx.quick else 12000, seed=s, extra=(dres["lines"], dres["impl"]))
+    ofail += [(x[0], str(x[1])[:2000], "runReorderingOnCells driven directly on a window of distinct cells of the rows did not complete: " + str(x[3])) for x in rres["throws"][:2]]
     for key in ("legal_fail", "shift_fail", "check_fail", "throw_fail", "crash"):
         ofail += [(l, w, "DetailedPlacer driven directly: " + why) for l, w, why in dres[key][:2]]
     lp = dres["lp"]
@@ -136,6 +141,12 @@ def run(ctx):
             if lp[key]:
                 ctx.violation(what + " (%d of %d calls); no illegal exposed state found" % (len(lp[key]), lp["records"]),
                               {"broken": thm, "first_difference": {"case": lp[key][0][0], "record": lp[key][0][1][:3000], "detail": lp[key][0][2]}}, found_input=False)
+        if rres["mismatch"] or rres["driver_fail"]:
+            x = (rres["mismatch"] + rres["driver_fail"])[0]
+            ctx.violation("correspondence Reorder.v closed reordering pass <-> RowReordering / runReorderingOnCells broken (%d runs differ); no illegal exposed state found"
+                          % (len(rres["mismatch"]) + len(rres["driver_fail"])),
+                          {"broken": "correspondence of coq/Reorder.v run (theorems c02_reordering_write_back_accepted, c02_closed_reordering_exposes_legal, c02_closed_reordering_keeps_orientation)",
+                           "first_difference": {"case": x[0], "detail": str(x[1:])[:2000]}}, found_input=False)
         if not proof_ok:
             ctx.violation("proof obligations of Properties_C02.v do not check", {"broken": "Properties_C02.v", "detail": proof}, found_input=False)
     from checks import c02_neigh
@@ -152,7 +163,7 @@ def run(ctx):
                         "placements; FC: circuits of the DP generator as generated / after Circuit::legalize / with one cell perturbed + degenerate circuits "
                         "(no rows, no cells, only fixed cells, rows of different heights); DO/DP as in C05. non-trivial = at least one operation was performed / the placement changed; distinct = distinct case lines",
                 "exhaustive": True, "exhaustive_sequences": len(exh), "ops_performed": ops_ok, "ops_refused": ops_no,
-                "direct_drive": do.summary(dres), "placeDetailed_runs": dc.summary(cres),
+                "direct_drive": do.summary(dres), "placeDetailed_runs": dc.summary(cres), "closed_reordering_pass_tie": cr.summary(rres),
                 "exposed_states_checked_legal": cres["states"] + dres["ops"],
                 "shift_passes_checked_against_proved_guard": dres["shifts_checked"],
                 "shift_lp_certificates": do.lp_summary(lp),
